@@ -55,12 +55,6 @@ theorem intended_lead (kw : Kw) (toks : List Tok) (I : Text) (h : leadSlash toks
       | nil => simp [leadSlash] at h
       | cons c l => simp
 
-theorem restNoLF_of_noRest (kw : Kw) : ∀ (toks : List Tok), hasRest toks = false → restNoLF kw toks = true
-  | [], _ => rfl
-  | .lit _ :: ts, h => by simpa [restNoLF] using restNoLF_of_noRest kw ts (by simpa [hasRest] using h)
-  | .ph _ _ :: ts, h => by simpa [restNoLF] using restNoLF_of_noRest kw ts (by simpa [hasRest] using h)
-  | .rest _ :: _, h => by simp [hasRest] at h
-
 /-! ### when the substitution fails -/
 
 theorem substToks_error (nd : List (Text × Text)) : ∀ (toks : List Tok) (e : Err), substToks nd toks = .error e →
